@@ -258,6 +258,23 @@ func c05Type(n *c05Node, want byte, eqChoice *uint, ints, bools *int) bool {
 	return false
 }
 
+// c05IsBool: the static type of a tree built from go/parser's output.
+func c05IsBool(n *c05Node) bool {
+	switch n.un {
+	case "!":
+		return true
+	case "-", "^", "+":
+		return false
+	}
+	if n.op != "" {
+		return c05RootWant(n) == 'b'
+	}
+	if n.l != nil {
+		return c05IsBool(n.l)
+	}
+	return n.leaf == "true" || n.leaf == "false" || (len(n.leaf) == 1 && n.leaf[0] >= 'p' && n.leaf[0] <= 't')
+}
+
 func c05RootWant(n *c05Node) byte {
 	switch n.op {
 	case "*", "/", "%", "<<", ">>", "&", "&^", "+", "-", "|", "^":
@@ -374,6 +391,22 @@ func (w *c05Worker) checkExpr(r *core.Run, idx int, kind, expr string, alts []*c
 	cs := c05Case{Expr: expr, Kind: kind}
 	separated := make([]bool, len(alts))
 	nontrivial := false
+	// the same expression as the body of a function over parameters: operands are frame slots there, so the
+	// optimizer's fused local forms apply (at top level the operands are globals)
+	fnT := "int"
+	if c05IsBool(want) {
+		fnT = "bool"
+	}
+	fnOK := false
+	if fo := w.m.Eval(nil, "func c05f(a int, b int, c int, d int, e int, p bool, q bool, r bool, s bool, t bool) "+fnT+" {\n\treturn "+expr+"\n}"); fo.Panic != "" {
+		r.Violate(core.Violation{Check: "c05", Index: idx, What: "Go panic escaped Eval of a function returning the expression", Case: cs, Observed: fo})
+		return
+	} else if fo.Err == "" {
+		fnOK = true
+	} else if !strings.Contains(fo.Err, "divide by zero") && !strings.Contains(fo.Err, "shift") {
+		r.Violate(core.Violation{Check: "c05", Index: idx, What: "goatlang rejects a function whose body returns a well-typed expression over int/bool parameters", Case: cs, Observed: fo})
+		return
+	}
 	for vi, vec := range c05Vectors {
 		env := c05Env(vec)
 		exp := c05Eval(want, env)
@@ -421,6 +454,32 @@ func (w *c05Worker) checkExpr(r *core.Run, idx int, kind, expr string, alts []*c
 			r.Violate(core.Violation{Check: "c05", Index: idx, What: "value differs from the value of Go's grouping", Case: cs,
 				Expected: map[string]any{"value": exp.String(), "grouping": want.sexpr(), "operands": vec}, Observed: o})
 			return
+		}
+		if fnOK {
+			var args []goatlang.Value
+			for i := 0; i < 5; i++ {
+				args = append(args, goatlang.Int32(vec[0][i]))
+			}
+			for i := 0; i < 5; i++ {
+				args = append(args, goatlang.Bool(vec[1][i] != 0))
+			}
+			fo := w.m.Call("main.c05f", 1, args...)
+			fgot := "error"
+			switch {
+			case fo.Panic != "":
+				fgot = "panic " + fo.Panic
+			case fo.Err != "":
+			case len(fo.Rets) != 1:
+				fgot = fmt.Sprintf("%d values %v", len(fo.Rets), fo.Rets)
+			default:
+				fgot = fo.Rets[0]
+			}
+			if fgot != exp.String() {
+				r.Violate(core.Violation{Check: "c05", Index: idx, What: "inside a function over parameters the value differs from the value of Go's grouping", Case: cs,
+					Expected: map[string]any{"value": exp.String(), "grouping": want.sexpr(), "operands": vec}, Observed: fo})
+				return
+			}
+			r.Count("evaluations_inside_a_function", 1)
 		}
 		if !exp.err {
 			nontrivial = true
